@@ -14,7 +14,7 @@
 (*   c  classification labels computed by the spec (wall class, fold, ...)   *)
 (*   v  failed clauses, << <<clause, expected>>, ... >>; empty = conforming  *)
 (***************************************************************************)
-EXTENDS OpsTz, TLCExt
+EXTENDS OpsTz, OpsCalendar, TLCExt
 
 T == JsonDeserialize(IOEnv.PV_TRACE)
 VARIABLES l, nbad
@@ -97,6 +97,36 @@ J_add_fixed(e) == LET s == Src(e)
                           R(<<e.a.entry, "src", ClassOf(s), "dst", ClassOf(x), B(OffOf(s) # OffOf(x))>>,
                             CmpOut(e.post, x, "DateTime"))
 
+\* ---- C15 -----------------------------------------------------------------------------
+J_year_prims(e) == LET y == e.a.y IN
+   R(<<B(IsLeap(y)), B(IsLongYear(y))>>,
+     V("is_leap", e.post.v[1] = B01(IsLeap(y)), B01(IsLeap(y)))
+     \o V("is_long_year", e.post.v[2] = B01(IsLongYear(y)), B01(IsLongYear(y)))
+     \o V("days_in_year", e.post.v[3] = DaysInYear(y), DaysInYear(y)))
+ArrClause(name, arr, n, F(_)) == LET k == FirstDiff(arr, n, F) IN
+   IF k = 0 THEN <<>> ELSE << <<name, <<k, IF k <= n THEN F(k) ELSE -1>> >> >>
+J_year_weekdays(e) == LET y == e.a.y n == DaysInYear(y) IN
+   R(<<B(IsLeap(y)), N(Weekday(Ord(y, 1, 1)))>>, ArrClause("week_day", e.post.v, n, LAMBDA k : ExpIsoWeekday(y, k)))
+J_year_getters(e) == LET y == e.a.y n == DaysInYear(y) p == e.post IN
+   R(<<e.a.cls, B(IsLeap(y)), B(IsLongYear(y))>>
+     \o (IF e.a.cls = "DateTimeTz" /\ \E m \in 1..12 : Classify(Z(e.a.tz), <<Ord(y, m, 1), 0>>) = "skipped"
+         THEN <<"month-start-skipped", B(e.a.f = 1)>> ELSE <<>>),
+     IF p.k = "exc" THEN << <<"unexpected-exception", p.names>> >> ELSE
+     ArrClause("day_of_week", p.dow, n, LAMBDA k : ExpDayOfWeek(y, k))
+     \o ArrClause("day_of_year", p.doy, n, LAMBDA k : ExpDayOfYear(y, k))
+     \o ArrClause("week_of_year", p.woy, n, LAMBDA k : ExpWeekOfYear(y, k))
+     \o ArrClause("week_of_month", p.wom, n, LAMBDA k : ExpWeekOfMonth(y, k))
+     \o ArrClause("days_in_month", p.dim, n, LAMBDA k : ExpDaysInMonth(y, k))
+     \o ArrClause("quarter", p.q, n, LAMBDA k : ExpQuarter(y, k))
+     \o ArrClause("is_leap_year", p.leap, n, LAMBDA k : B01(IsLeap(y)))
+     \o ArrClause("is_long_year", p.long, n, LAMBDA k : B01(IsLongYear(y))))
+\* probe k: instant <<day0 + k - 1, 0>> shifted by ds[k] seconds, rendered at offset offs[k]
+J_local_time_scan(e) == LET a == e.a n == Len(a.ds) IN
+   R(<<"n", N(n)>>,
+     IF e.post.k = "exc" THEN << <<"unexpected-exception", e.post.names>> >> ELSE
+     ArrClause("local_time", e.post.v, n,
+               LAMBDA k : LocalTime(DSAdd(<<a.day0 + k - 1, 0>>, a.ds[k]), a.offs[k], a.us[k])))
+
 Judge(e) == CASE e.op = "in_tz" -> J_in_tz(e)
               [] e.op = "astimezone" -> J_in_tz(e)
               [] e.op = "from_timestamp" -> J_from_timestamp(e)
@@ -108,6 +138,10 @@ Judge(e) == CASE e.op = "in_tz" -> J_in_tz(e)
               [] e.op = "replace" -> J_replace(e)
               [] e.op = "naive_in_tz" -> J_naive_in_tz(e)
               [] e.op = "add_fixed" -> J_add_fixed(e)
+              [] e.op = "year_prims" -> J_year_prims(e)
+              [] e.op = "year_weekdays" -> J_year_weekdays(e)
+              [] e.op = "year_getters" -> J_year_getters(e)
+              [] e.op = "local_time_scan" -> J_local_time_scan(e)
               [] OTHER -> R(<<"unknown-op">>, << <<"unknown-op", e.op>> >>)
 
 Init == l = 1 /\ nbad = 0
